@@ -1,4 +1,5 @@
 import TxdbusModel.Proofs.Wire.TopLevel
+import TxdbusModel.Proofs.Wire.AlignSpec
 /-!
 Property C02 - encoded bytes are exactly the DBus wire format, in both directions.
 
@@ -45,7 +46,8 @@ theorem C02_encode (le : Bool) (ts : List Ty) (pv : PyVal) (items : List PyVal) 
     (hitems : Code.topItems pv = .ok items) (hrep : Code.RepFields fdl vs true ts items 0 k')
     (henc : Spec.encodeAll Spec.alignTable (endianOf le) ts vs off = some bs) (hfuel : depthAll vs ≤ fuel) :
     Code.marshal fuel (renderAll ts) pv off le (some []) = .ok (bs.length, bs, some (fdl.take k')) :=
-  Code.marshal_eq_spec le ts pv items vs fdl k' off bs fuel hitems hrep henc hfuel
+  Code.marshal_eq_spec Spec.alignTable Code.padOK_spec Code.alignTable_pos le ts pv items vs fdl k' off bs fuel
+    hitems hrep henc hfuel
 
 /-- `unmarshal` decodes every spec-conformant encoding to the value it encodes. -/
 theorem C02_decode (le : Bool) (fds : Code.Fds) (ts : List Ty) (vs : List Val) (off : Nat)
@@ -53,7 +55,8 @@ theorem C02_decode (le : Bool) (fds : Code.Fds) (ts : List Ty) (vs : List Val) (
     (hts : allWF ts = true) (henc : Spec.encodeAll Spec.alignTable (endianOf le) ts vs off = some bs)
     (hpre : pre.length = off) (hval : Code.fromSpecFields fds vs ts = some values) (hfuel : depthAll vs ≤ fuel) :
     Code.unmarshal fuel (renderAll ts) (pre ++ bs ++ suf) off le fds = .ok (bs.length, values) :=
-  Code.unmarshal_eq_spec le fds ts vs off bs pre suf values fuel hts henc hpre hval hfuel
+  Code.unmarshal_eq_spec Spec.alignTable Code.padOK_spec Code.alignTable_pos le fds ts vs off bs pre suf values fuel
+    hts henc hpre hval hfuel
 
 /-- Satisfiable: a big-endian encoding of a variant holding an EMPTY array of INT32 (a typing txdbus's own
 encoder never produces: it sends empty lists as `av`) followed by a descriptor index. -/
